@@ -1707,7 +1707,7 @@ end
     not hold exactly, a print of a list or a map, a comparison outside the subset, the loop bound
     `fuel`).  It never throws.  `{call}`: under `CallRel` and `CallRelE` (the callee's function returns the text the
     reference's `call` renders, and throws only where `call` does not render). -/
-theorem gen_complete_cmds_partial (hG : CallRel G R) (hGe : CallRelE G R) (cmds : CmdList) (sc : Scope) (r : JsStmts × Scope) (h : toCmds ae buf cmds sc = some r)
+theorem gen_complete_cmds_partial (cmds : CmdList) (sc : Scope) (r : JsStmts × Scope) (h : toCmds ae buf cmds sc = some r)
     (env : SEnv) (jenv : JEnv) (out : Bytes) (hs : ScOk sc) (hg : GoodBuf sc buf) (hrel : EnvRel R.entry sc env jenv)
     (hb : BufIs buf jenv out) (t : Bytes) (ht : refCmds F R ae cmds env = .val t) (fuel : Nat) :
     (∃ jenv', execStmts F G fuel r.1 jenv = .ok jenv' ∧ BufIs buf jenv' (out ++ t)) ∨ execStmts F G fuel r.1 jenv = .unspec := by
@@ -1722,12 +1722,146 @@ theorem gen_complete_cmds_partial (hG : CallRel G R) (hGe : CallRelE G R) (cmds 
   | unspec => exact Or.inr rfl
 
 /-- the same, read as "no TypeError where the reference renders" -/
-theorem gen_no_throw_cmds_partial (hG : CallRel G R) (hGe : CallRelE G R) (cmds : CmdList) (sc : Scope) (r : JsStmts × Scope)
+theorem gen_no_throw_cmds_partial (cmds : CmdList) (sc : Scope) (r : JsStmts × Scope)
     (h : toCmds ae buf cmds sc = some r) (env : SEnv) (jenv : JEnv) (out : Bytes) (hs : ScOk sc) (hg : GoodBuf sc buf)
     (hrel : EnvRel R.entry sc env jenv) (hb : BufIs buf jenv out) (t : Bytes) (ht : refCmds F R ae cmds env = .val t) (fuel : Nat) :
     execStmts F G fuel r.1 jenv ≠ .error := by
   intro hx
   exact cmds_ne F G R ae hG hGe cmds buf fuel sc r env jenv out h hs hg hrel hb hx t ht
+
+end
+
+/-! ## the callee oracle, discharged: calls to any depth
+
+  The oracle the call theorems assume (`CallRel`, `CallRelE`) instantiated with what a generated function DOES —
+  `genCall`: look the template up, run the statements of its body (`toCmds` from a fresh scope) from `opt_data` = the
+  data object and `output = ''`, return `output` (the function header `opt_data = opt_data || {}`, `var output = ''`,
+  `return output` is read into this definition, it is not generator output the theorems talk about) — against the
+  reference `refCall`: the callee's body rendered by `refCmds` in the environment its data makes.  Both are indexed
+  by the nesting depth of calls they allow; `calls_correct` proves the two hypotheses by induction on it. -/
+
+section
+variable (F : Bytes → List Expr → JVal → JOut) (reg : Registry.Reg) (fuel : Nat)
+
+/-- the autoescape mode in force for a template -/
+def tmplAe (t : Registry.Tmpl) : Autoescape := if t.autoescape != .unspecified then t.autoescape else t.nsAutoescape
+
+def blockCmds : Block → CmdList
+  | .mk _ cmds => cmds
+
+/-- the reference's `call`, by depth: the body of the callee in the environment of its data -/
+def refCall : Nat → Registry.Tmpl → Spec.Eval.CallEnv → Out Bytes
+  | 0, _, _ => .unspec
+  | d + 1, t, ce =>
+    refCmds F ⟨reg, ce.entry, refCall d⟩ (tmplAe t) (blockCmds t.body)
+      { vars := ce.entry, loops := [], ij := ce.ij, globals := ce.globals }
+
+/-- what the body of a generated function computes from the data object `kvs`, given the functions it may call -/
+def genBody (G : Bytes → JVal → JOut) (t : Registry.Tmpl) (kvs : List (Bytes × JVal)) : JOut :=
+  match toCmds (tmplAe t) b!"output" (blockCmds t.body) ⟨[[]], 0⟩ with
+  | some r =>
+    (match execStmts F G fuel r.1 ⟨kvs, none, [(b!"output", .str [])]⟩ with
+      | .ok e =>
+        (match e.locals.find? (·.1 == b!"output") with
+          | some (_, .str out) => .val (.str out)
+          | _ => .unspec)
+      | .error => .error
+      | .unspec => .unspec)
+  | none => .unspec
+
+/-- the generated functions, by depth -/
+def genCall : Nat → Bytes → JVal → JOut
+  | 0, _, _ => .unspec
+  | d + 1, name, data =>
+    match data with
+    | .obj kvs =>
+      (match Registry.lookup reg name with
+        | some t => genBody F fuel (genCall d) t kvs
+        | none => .unspec)
+    | _ => .unspec
+
+theorem scOk_fresh (n : Nat) : ScOk ⟨[[]], n⟩ := by
+  refine ⟨by simp, ?_⟩
+  intro f hf kv hkv
+  simp only [List.mem_singleton] at hf
+  subst hf
+  cases hkv
+
+/-- the callee oracle and the reference's call agree at every depth: the two hypotheses of the call theorems hold
+    for the generated functions themselves -/
+theorem calls_correct : ∀ (d : Nat) (e : Spec.Eval.Binds),
+    CallRel (genCall F reg fuel d) ⟨reg, e, refCall F reg d⟩ ∧ CallRelE (genCall F reg fuel d) ⟨reg, e, refCall F reg d⟩
+  | 0, e => ⟨fun _ _ _ _ _ h => by simp [genCall] at h, fun _ _ _ _ h => by simp [genCall] at h⟩
+  | d + 1, e => by
+    have ih := calls_correct d
+    refine ⟨?_, ?_⟩
+    · intro name ce jd r hj hg
+      simp only [genCall] at hg
+      cases hl : Registry.lookup reg name with
+      | none => simp [hl] at hg
+      | some t =>
+        simp only [hl, genBody] at hg
+        split at hg
+        · rename_i rr hrr
+          split at hg
+          · rename_i jenv' hx
+            have hbody := gen_correct_body_partial F (genCall F reg fuel d) ⟨reg, ce.entry, refCall F reg d⟩ (tmplAe t)
+              (ih ce.entry).1 (blockCmds t.body) 0 rr hrr
+              { vars := ce.entry, loops := [], ij := ce.ij, globals := ce.globals } jd none rfl hj jenv' fuel hx
+            obtain ⟨text, ht, hb⟩ := hbody
+            unfold BufIs at hb
+            rw [hb] at hg
+            simp only [JOut.val.injEq] at hg
+            exact ⟨t, text, rfl, ht, hg.symm⟩
+          · cases hg
+          · cases hg
+        · cases hg
+    · intro name ce jd hj hg callee out hlk
+      simp only [Registry.lookup] at hlk
+      simp only [genCall, Registry.lookup, hlk, genBody] at hg
+      split at hg
+      · rename_i rr hrr
+        split at hg
+        · split at hg <;> cases hg
+        · rename_i hx
+          intro hc
+          have hrel : EnvRel ce.entry ⟨[[]], 0⟩ { vars := ce.entry, loops := [], ij := ce.ij, globals := ce.globals }
+              ⟨jd, none, [(b!"output", .str [])]⟩ :=
+            C04c.envRel_params _ { vars := ce.entry, loops := [], ij := ce.ij, globals := ce.globals } _
+              (fun k => by simp [Scope.lookup, Scope.lookupIn, frameGet?]) hj
+          exact gen_no_throw_cmds_partial F (genCall F reg fuel d) ⟨reg, ce.entry, refCall F reg d⟩ (tmplAe callee) b!"output"
+            (ih ce.entry).1 (ih ce.entry).2 (blockCmds callee.body) ⟨[[]], 0⟩ rr hrr _ _ [] (scOk_fresh 0)
+            (goodBuf_plain 0 _ (by decide)) hrel (by simp [BufIs]) out hc fuel hx
+        · cases hg
+      · cases hg
+
+/-- PARTIAL (C04, a template with the templates it calls, to any depth): the body of a template of the fragment, its
+    `{call}`s answered by the generated functions themselves (`genCall`, depth `d`) — when its statements complete,
+    `output` holds what the reference renders with the callees' bodies as `call` (`refCall`, the shape of
+    Spec/Eval.renderTmpl).  No hypothesis about the callees is left: `calls_correct` supplies it. -/
+theorem gen_correct_program_partial (ae : Autoescape) (d : Nat) (body : CmdList) (n : Nat) (r : JsStmts × Scope)
+    (h : toCmds ae b!"output" body ⟨[[]], n⟩ = some r) (env : SEnv) (optData : List (Bytes × JVal))
+    (ij : Option (List (Bytes × JVal))) (hdata : C04c.toJsKvs env.vars = some optData) (jenv' : JEnv) (fuel' : Nat)
+    (hx : execStmts F (genCall F reg fuel d) fuel' r.1 ⟨optData, ij, [(b!"output", .str [])]⟩ = .ok jenv') :
+    ∃ text, refCmds F ⟨reg, env.vars, refCall F reg d⟩ ae body env = .val text ∧ BufIs b!"output" jenv' text :=
+  gen_correct_body_partial F (genCall F reg fuel d) ⟨reg, env.vars, refCall F reg d⟩ ae (calls_correct F reg fuel d env.vars).1
+    body n r h env optData ij rfl hdata jenv' fuel' hx
+
+/-- … and the converse: where the reference renders, the statements complete with that text or leave the common
+    subset; no callee throws -/
+theorem gen_complete_program_partial (ae : Autoescape) (d : Nat) (body : CmdList) (r : JsStmts × Scope)
+    (h : toCmds ae b!"output" body ⟨[[]], 0⟩ = some r) (env : SEnv) (optData : List (Bytes × JVal))
+    (ij : Option (List (Bytes × JVal))) (hdata : C04c.toJsKvs env.vars = some optData) (fuel' : Nat) (t : Bytes)
+    (ht : refCmds F ⟨reg, env.vars, refCall F reg d⟩ ae body env = .val t) :
+    (∃ jenv', execStmts F (genCall F reg fuel d) fuel' r.1 ⟨optData, ij, [(b!"output", .str [])]⟩ = .ok jenv' ∧
+      BufIs b!"output" jenv' t) ∨
+    execStmts F (genCall F reg fuel d) fuel' r.1 ⟨optData, ij, [(b!"output", .str [])]⟩ = .unspec := by
+  have hrel : EnvRel env.vars ⟨[[]], 0⟩ env ⟨optData, ij, [(b!"output", .str [])]⟩ :=
+    C04c.envRel_params _ env _ (fun k => by simp [Scope.lookup, Scope.lookupIn, frameGet?]) hdata
+  have := gen_complete_cmds_partial F (genCall F reg fuel d) ⟨reg, env.vars, refCall F reg d⟩ ae b!"output"
+    (calls_correct F reg fuel d env.vars).1 (calls_correct F reg fuel d env.vars).2 body ⟨[[]], 0⟩ r h env _ [] (scOk_fresh 0)
+    (goodBuf_plain 0 _ (by decide)) hrel (by simp [BufIs]) t ht fuel'
+  simpa using this
 
 end
 
@@ -1752,5 +1886,39 @@ example : refCmds sampleF noRef .off throwCmds
 example : (throwRun (.obj [(b!"q", .obj [(b!"z", .num 7)])])).map (fun r => match r with
     | .ok e => (e.locals.find? (·.1 == b!"output")).map (·.2)
     | _ => none) = some (some (.str b!"A7B")) := rfl
+
+/-- the template `sem.c`: `{$p}:{$c|noAutoescape}:{$a}` -/
+def calleeT : Registry.Tmpl :=
+  { (default : Registry.Tmpl) with
+    name := b!"sem.c", autoescape := .on, nsAutoescape := .on,
+    body := .mk 0 (.cons (.print 0 (.dataRef 0 b!"p" .nil) []) (.cons (.rawText 0 b!":")
+      (.cons (.print 0 (.dataRef 0 b!"c" .nil) [⟨0, b!"noAutoescape", []⟩]) (.cons (.rawText 0 b!":")
+      (.cons (.print 0 (.dataRef 0 b!"a" .nil) []) .nil))))) }
+
+-- `sampleCall` (Props/C04d: `[{call sem.c data="all"}{param p: $a + 1 /}{param c}<{$a}>{/param}{/call}]`) with the
+-- generated function of `sem.c` as the callee: the run, the reference, and `gen_correct_program_partial` on it
+example : (match toCmds .on b!"output" sampleCall ⟨[[]], 0⟩ with
+    | some r => (match execStmts sampleF (genCall sampleF [calleeT] 10 2) 10 r.1 (sampleJEnv 5) with
+      | .ok e => (e.locals.find? (·.1 == b!"output")).map (·.2)
+      | _ => none)
+    | none => none) = some (.str b!"[6:<5>:5]") := rfl
+
+example : refCmds sampleF ⟨[calleeT], (sampleEnv 5).vars, refCall sampleF [calleeT] 2⟩ .on sampleCall (sampleEnv 5) =
+    .val b!"[6:<5>:5]" := rfl
+
+example (a : Int) (ha : SoyVerif.Spec.JsSem.exact a = true) (jenv' : JEnv) (r : JsStmts × Scope)
+    (h : toCmds .on b!"output" sampleCall ⟨[[]], 0⟩ = some r)
+    (hx : execStmts sampleF (genCall sampleF [calleeT] 10 2) 10 r.1 (sampleJEnv a) = .ok jenv') :
+    ∃ text, refCmds sampleF ⟨[calleeT], (sampleEnv a).vars, refCall sampleF [calleeT] 2⟩ .on sampleCall (sampleEnv a) = .val text ∧
+      BufIs b!"output" jenv' text :=
+  gen_correct_program_partial sampleF [calleeT] 10 .on 2 sampleCall 0 r h (sampleEnv a) _ none
+    (by simp [sampleEnv, C04c.toJsKvs, C04c.toJsV, ha]) jenv' 10 hx
+
+-- depth 0 allows no call: the semantics says nothing (`unspec`), and so does the reference
+example : (match toCmds .on b!"output" sampleCall ⟨[[]], 0⟩ with
+    | some r => (match execStmts sampleF (genCall sampleF [calleeT] 10 0) 10 r.1 (sampleJEnv 5) with
+      | .unspec => true
+      | _ => false)
+    | none => false) = true := rfl
 
 end SoyVerif.Props.C04e
